@@ -634,9 +634,22 @@ func (cachefile *cacheFile) SetData(stream *index.Stream, convertedPackets []ind
 	return cachefile.setData(stream.ID(), stream.FirstPacket(), convertedPackets)
 }
 
-func (cachefile *cacheFile) setData(streamID uint64, streamTime time.Time, convertedPackets []index.Data) error {
+func (cachefile *cacheFile) setData(streamID uint64, streamTime time.Time, convertedPackets []index.Data) (err error) {
 	cachefile.rwmutex.Lock()
 	defer cachefile.rwmutex.Unlock()
+
+	defer func() {
+		if err != nil {
+			// remove what was written of the record, the next record has
+			// to start where the bookkeeping expects it
+			if err := cachefile.file.Truncate(cachefile.fileSize); err != nil {
+				log.Printf("Failed to remove a partly written record from converter cache file(%q): %v\n", cachefile.cachePath, err)
+			}
+			if _, err := cachefile.file.Seek(cachefile.fileSize, io.SeekStart); err != nil {
+				log.Printf("Failed to seek to the end of converter cache file(%q): %v\n", cachefile.cachePath, err)
+			}
+		}
+	}()
 
 	// A chunk size of zero is the direction/end marker of the file format,
 	// chunks without data can't be stored and carry no information. Drop them.
